@@ -99,6 +99,13 @@ class Ctx:
         os.makedirs(self.work, exist_ok=True)
         self.replay_dir = os.path.join(ROOT, "replays", prop)
         self.thorough = self.tier == "thorough"
+        # failing inputs found but not yet minimised: reported as they are when the check is interrupted (bin/check)
+        self.provisional = []     # (what, replay text)
+        self.time_limit = int(os.environ.get("VERIF_TIME_LIMIT") or (7000 if self.thorough else 1400))
+
+    def time_left(self):
+        """seconds before the watchdog of bin/check fires; minimisers and searches stop early when little is left"""
+        return self.time_limit - (time.time() - self.t0)
 
     def log(self, *a):
         print("[%s %6.1fs]" % (self.prop, time.time() - self.t0), *a, flush=True)
@@ -618,12 +625,20 @@ def poly_oracle_tie(ctx):
     import re
     n = 120 if ctx.thorough else 40
     with Lock("coq"):
-        rc, out = sh("python3 %s %d %d" % (os.path.join(ROOT, "tools", "poly_compare.py"), ctx.seed % 100000 + 1, n), timeout=1300)
+        # the mirrors must be compiled and current whatever ran before (they are not in the cone of every property file)
+        coq_prepare()
+        rc, out = sh("make -j%d theories/Proofs/PolyOracleDefs.vo theories/Proofs/PolyClassesDefs.vo theories/Proofs/PolyCnfDefs.vo" % NCPU, cwd=COQ, timeout=1500)
+        if rc == 0:
+            rc, out = sh("python3 %s %d %d" % (os.path.join(ROOT, "tools", "poly_compare.py"), ctx.seed % 100000 + 1, n), timeout=1300)
     m = re.search(r"frameworks (\d+), status decisions (\d+) .*returned sets (\d+), dynamic decisions (\d+): all equal", out)
     ok = rc == 0 and m is not None
     if ok:
         ctx.cov["polynomial_oracle_vs_coq_mirror"] = {"frameworks": int(m.group(1)), "status_decisions": int(m.group(2)),
                                                       "returned_sets": int(m.group(3)), "dynamic_decisions": int(m.group(4)), "differences": 0}
+        m3 = re.search(r"propagations (\d+): conflict (\d+), model (\d+), open (\d+)", out)
+        if m3:
+            ctx.cov["polynomial_oracle_vs_coq_mirror"].update({"unit_propagations": int(m3.group(1)), "propagation_conflicts": int(m3.group(2)),
+                                                               "propagation_models": int(m3.group(3)), "propagation_open": int(m3.group(4))})
         m2 = re.search(r"class partitions (\d+), cut (\d+)", out)
         if m2:
             ctx.cov["polynomial_oracle_vs_coq_mirror"].update({"class_partitions": int(m2.group(1)), "class_partitions_cut_by_a_built_complete_extension": int(m2.group(2))})
